@@ -9,11 +9,11 @@ vars == <<conns, hist, fin>>
 Ports == {"i0.a", "i1.a", "i0.bp", "i1.bp"}
 PortSeq == <<"i0.a", "i1.a", "i0.bp", "i1.bp">>
 IsBundlePort(p) == p \in {"i0.bp", "i1.bp"}
-ValsOf(p) == IF IsBundlePort(p) THEN {"b", "c", "anon", "dict", "pref"} ELSE {"s", "t", "bus0", "cat", "pref", "nc"}
+ValsOf(p) == IF IsBundlePort(p) THEN {"b", "c", "anon", "dict", "pref", "anonp", "dictp"} ELSE {"s", "t", "bus0", "cat", "pref", "nc"}
 Default(p) == IF IsBundlePort(p) THEN "b" ELSE "s"
 O(op, p, v) == [op |-> op, port |-> p, val |-> v]
 Ops == UNION {{O("connect", p, v) : v \in ValsOf(p)} : p \in Ports}
-       \cup UNION {{O("replace", p, v) : v \in ValsOf(p) \ {"dict"}} : p \in Ports}    \* the dict shorthand belongs to connect() only
+       \cup UNION {{O("replace", p, v) : v \in ValsOf(p) \ {"dict", "dictp"}} : p \in Ports}    \* the dict shorthand belongs to connect() only
        \cup {O("disconnect", p, "") : p \in Ports} \cup {O("read", p, "") : p \in Ports}
 Init == conns = [p \in Ports |-> None] /\ hist = <<>> /\ fin = FALSE
 Step == /\ ~fin /\ Len(hist) < Depth
